@@ -1002,7 +1002,8 @@ func CalculateCursor(filt *object.SearchFilter, lastItem client.SearchResultItem
 		if _, err = hex.Decode(res[off:], []byte(lastItemVal)); err != nil {
 			return nil, fmt.Errorf("decode %q attribute from HEX: %w", attr, err)
 		}
-		off += copy(res[off+ln:], MetaAttributeDelimiter)
+		off += ln
+		off += copy(res[off:], MetaAttributeDelimiter)
 		copy(res[off:], lastItem.ID[:])
 		return res, nil
 	case object.FilterSplitID:
